@@ -2,7 +2,7 @@
    The machine is `run rem_fix sweep_fix` of Lifecycle.v with the two switches taken from
    Generated.v, i.e. read off the C text of the working tree: a revert of either half of the D18
    repair makes these statements ill-typed proofs (broken obligations). *)
-From CelloV Require Import Generated Lifecycle LifecycleProofs LifecycleGlue.
+From CelloV Require Import Generated Lifecycle LifecycleProofs.
 From Coq Require Import List.
 Import ListNotations.
 
@@ -232,71 +232,8 @@ Example lifecycle_terminate_inhabited :
   fin_count (terminate mitems_rule true true true true false true RSigUncaught [] (run mitems_rule true true true exit_history)) 2 = 1.
 Proof. exact exit_history_ok. Qed.
 
-(* ---------------------------------------------------------------------------------------------
-   The abstract registry of the life-cycle machine is a sound abstraction of the concrete robin-hood
-   registry of property C17 (coq/RegistryModel.v; RM, RP = RegistryModel, RegistryProofs).
-   Vocabulary (coq/LifecycleGlue.v): abs_reg / abs_pend = a C17 state seen as registry list (slot
-   order, root flags) and pending list; Rel d g s = the C17 state g and the life-cycle state s show
-   the same registered set with the same root flags, the same pending list entry by entry, the same
-   running flag and mitems, the same number of destructor calls per address, the same ownership;
-   Tab / TabM = table part of C17's invariant; c_order g / c_marks g = the order in which C17's
-   compaction loop hands entries to the pending list / its mark bits; crun = both machines driven by
-   one history of C17 operations; boxlike d = a destructor deletes at most one object and allocates
-   nothing; gadm_run = addresses are not reused. *)
-
-(* GC_Sweep on the concrete table (compaction loop with wrap-around, GC_Resize_Less, finaliser loop
-   with destructor-issued removals) IS the sweep of the life-cycle machine for order := c_order g,
-   marks := c_marks g — so everything proved for all orders and marks holds for the table's *)
-Theorem lifecycle_glue_sweep : forall hashf d, boxlike d -> forall A g s g',
-  TabM hashf g -> RM.pending g = [] -> Rel d g s -> GInv A s ->
-  RP.Gsweep hashf d true true g = Some g' ->
-  Tab hashf g' /\ Rel d g' (sweep mitems_rule true (fin_top mitems_rule true true true) (c_order g) (c_marks g) s) /\
-  RM.pending g' = [] /\ Mono g g'.
-Proof. exact glue_sweep_thm. Qed.
-Print Assumptions lifecycle_glue_sweep.
-
-(* GC_Rem on the concrete table — del, del_root, and the del a destructor issues while a sweep is in
-   progress (g may have a non-empty pending list) — is GC_Rem of the life-cycle machine *)
-Theorem lifecycle_glue_rem : forall hashf d, boxlike d -> forall f A g s p g',
-  Tab hashf g -> Rel d g s -> GInv A s ->
-  RP.Grem hashf d true f g p = Some g' ->
-  Tab hashf g' /\ Rel d g' (gc_rem mitems_rule true (fin_top mitems_rule true true true) s (idn p)) /\ Mono g g'.
-Proof. exact glue_rem_thm. Qed.
-Print Assumptions lifecycle_glue_rem.
-
-(* every admissible history of C17 operations (alloc/alloc_root with threshold collections, del,
-   del_raw, collections, sweeps, stop/start) without address reuse: the concrete registry and the
-   life-cycle machine stay related *)
-Theorem lifecycle_glue_history : forall hashf d, boxlike d -> RP.dtors_ok d -> forall ops,
-  RP.Gadm hashf d true true ops RM.gc_init -> gadm_run hashf d ops RM.gc_init ->
-  let gs := crun hashf d ops RM.gc_init (cinit d) in
-  fst gs = RP.Grun hashf d true true ops RM.gc_init /\ GL hashf d (fst gs) (snd gs).
-Proof. exact glue_history_thm. Qed.
-Print Assumptions lifecycle_glue_history.
-
-(* C06 on the run whose registry IS the concrete robin-hood table, read off C17's own event log:
-   no address finalised twice; teardown finalises every registered non-root address exactly once;
-   del of a registered address finalises it exactly once.  `_partial`: destructors that allocate
-   (C17's d_spawns) and re-used addresses are not covered — see coq/LifecycleGlue.v, section 7. *)
-Theorem lifecycle_over_concrete_registry_partial : forall hashf d, boxlike d -> RP.dtors_ok d -> forall ops,
-  RP.Gadm hashf d true true ops RM.gc_init -> gadm_run hashf d ops RM.gc_init ->
-  (forall p, cnt_fin p (RM.evs (RP.Grun hashf d true true ops RM.gc_init)) <= 1) /\
-  (forall ops' p, ops = ops' ++ [RM.OSweep] ->
-     RP.Regs (RM.slots (RP.Grun hashf d true true ops' RM.gc_init)) p false ->
-     cnt_fin p (RM.evs (RP.Grun hashf d true true ops RM.gc_init)) = 1) /\
-  (forall ops' p r, ops = ops' ++ [RM.ORem p] ->
-     RM.running (RP.Grun hashf d true true ops' RM.gc_init) = true ->
-     RP.Regs (RM.slots (RP.Grun hashf d true true ops' RM.gc_init)) p r ->
-     cnt_fin p (RM.evs (RP.Grun hashf d true true ops RM.gc_init)) = 1).
-Proof. exact over_concrete_registry_partial. Qed.
-Print Assumptions lifecycle_over_concrete_registry_partial.
-
-(* non-vacuity: a Box and the object it owns reclaimed by the same sweep of a table with colliding
-   addresses, a root, an explicit del, teardown *)
-Example lifecycle_glue_inhabited :
-  boxlike gx_d /\ RP.dtors_ok gx_d /\
-  RP.Gadm gx_hash gx_d true true gx_ops RM.gc_init /\ gadm_run gx_hash gx_d gx_ops RM.gc_init /\
-  cnt_fin gx_owned (RM.evs (RP.Grun gx_hash gx_d true true gx_ops RM.gc_init)) = 1.
-Proof.
-  exact (conj gx_boxlike (conj gx_dok (conj (proj1 gx_admissible) (conj (proj2 gx_admissible) gx_owned_once)))).
-Qed.
+(* The theorems that tie the abstract registry of this machine to C17's concrete robin-hood registry
+   (lifecycle_glue_sweep, lifecycle_glue_rem, lifecycle_glue_history,
+   lifecycle_over_concrete_registry_partial) are in coq/Properties_C06_glue.v: they are statements about
+   C17's model, which exists only when C17's own translator can read the tree; props/C06.py re-checks
+   them on every run where it can (see design.d/C06.md, "Glue"). *)
